@@ -251,10 +251,12 @@ func (g *Gen) Request(c int) *wire.Req {
 		ps := k.pings[c]
 		if len(ps) > 0 && g.rnd.Intn(10) > 0 {
 			if g.rnd.Intn(6) == 0 {
-				r.Rid = ps[g.rnd.Intn(len(ps))] // possibly one answered before
+				r.PingRef = 1 + g.rnd.Intn(len(ps)) // possibly one answered before
 			} else {
-				r.Rid = ps[len(ps)-1]
+				r.PingRef = len(ps)
 			}
+		} else if g.rnd.Intn(3) == 0 {
+			r.PingRef = len(ps) + 1 + g.rnd.Intn(3) // never issued
 		}
 	case "signedLatency":
 		r.N1 = []uint32{0, 2, 3, 3, 4, 5, 6, 50, 51, 60, 4294967295}[g.rnd.Intn(11)]
